@@ -17,4 +17,14 @@ pub use builder::WalrusBuilder;
 pub use index::{BlockPos, WalIndex};
 pub use walrus::{ReadConsistency, Walrus};
 
+#[cfg(walrus_verif)]
+pub(crate) fn verif_file_state(path: &str) -> Option<(u16, u16, u16, bool)> {
+    allocator::FileStateTracker::get_state_snapshot(path)
+}
+
+#[cfg(walrus_verif)]
+pub(crate) fn verif_block_file(block_id: usize) -> Option<String> {
+    allocator::BlockStateTracker::get_file_path_for_block(block_id)
+}
+
 pub(super) static DELETION_TX: OnceLock<Arc<mpsc::Sender<String>>> = OnceLock::new();
